@@ -67,6 +67,23 @@ BUDGET = {"quick": 120, "thorough": 900}
 
 MS = [2, 4, 8, 16, 32, 64, 128, 256]
 
+# documented positional order of every anchored function (signatures of /repo HEAD 8caea4c, recorded as literals: NOT read from the
+# code under test).  Each is called once positionally in this order and once purely by keyword; the results must be bit-identical.
+POSITIONAL = {
+    "ook.theory_BER": ["mu1", "s0", "s1"],
+    "ook.THRESHOLD_EST": ["eye_obj"],
+    "ook.BER_analizer": ["mode"],                      # (mode, **kargs): eye_obj is keyword-only by construction
+    "ppm.theory_BER": ["mu1", "s0", "s1", "M", "decision"],
+    "ppm.THRESHOLD_EST": ["eye_obj", "M"],
+    "ppm.BER_analizer": ["mode"],
+    "utils.p_ase": ["amplify", "wavelength", "G", "NF", "BW_opt"],
+    "utils.average_voltages": ["P_avg", "modulation", "M", "ER", "amplify", "wavelength", "G", "NF", "BW_opt", "r", "R_L"],
+    "utils.noise_variances": ["P_avg", "modulation", "M", "ER", "amplify", "wavelength", "G", "NF", "BW_opt", "r", "BW_el", "R_L", "T", "NF_el"],
+    "utils.optimum_threshold": ["mu0", "mu1", "S0", "S1", "modulation", "M"],
+    "utils.theory_BER": ["P_avg", "modulation", "M", "decision", "threshold", "ER", "amplify", "f0", "G", "NF", "BW_opt", "r", "BW_el",
+                         "R_L", "T", "NF_el"],
+}
+
 
 # ------------------------------------------------------------------------------------------------
 # generators
@@ -177,7 +194,8 @@ def gen_cases(rng, tier):
                       "NF_el": rng.choice([0.0, rng.uniform(0, 10)]), "npol": rng.choice([1, 2]), "seed": rng.getrandbits(31)})
     for _ in range(4 * k):
         cases.append({"kind": "device-edfa", "sps": rng.choice([8, 16]), "R": rng.choice([1e9, 10e9]),
-                      "wavelength": rng.choice([1550e-9, 1310e-9]), "G": rng.uniform(0, 40), "NF": rng.uniform(3, 10), "npol": rng.choice([1, 2])})
+                      "wavelength": rng.choice([1550e-9, 1310e-9]), "G": rng.uniform(0, 40), "NF": rng.uniform(3, 10), "npol": rng.choice([1, 2]),
+                      "in_noise": rng.random() < 0.5, "seed": rng.getrandbits(31)})
     # error cells
     e0 = {"mu0": 0.0, "mu1": 1.0, "s0": 0.1, "s1": 0.1}
     for M in (3, 6, 12, 100):
@@ -210,6 +228,23 @@ def _try(fn):
         return {"timeout": str(e)}
     except Exception as e:  # noqa
         return {"err": exc_enum(e), "exc": type(e).__name__, "detail": repr(e)[:160]}
+
+
+def _flat(v):
+    """result of a call as a flat list of floats (tuples / arrays / scalars)"""
+    if isinstance(v, tuple):
+        return [x for part in v for x in _flat(part)]
+    return [float(x) for x in np.ravel(np.asarray(v, dtype=float))]
+
+
+def _positional(res, name, fn, kwargs, extra_kw=None):
+    """call `fn` once with `kwargs` passed POSITIONALLY in the documented order POSITIONAL[name] (plus extra_kw by keyword) and once
+    purely by keyword; record both outcomes"""
+    order = POSITIONAL[name]
+    extra_kw = extra_kw or {}
+    pos = _try(lambda: _flat(fn(*[kwargs[k] for k in order], **extra_kw)))
+    kw = _try(lambda: _flat(fn(**{k: kwargs[k] for k in order}, **extra_kw)))
+    res.setdefault("positional", {})[name] = {"pos": pos, "kw": kw}
 
 
 class _QuadSpy:
@@ -324,6 +359,9 @@ def run_impl(case):
                     res["est_shift"] = _try(lambda: _f(ook.BER_analizer("estimator", eye_obj=e2)))
                     res["theory"] = _try(lambda: _f(ook.theory_BER(mu, case["s0"], case["s1"])))
                     res["theory_up"] = _try(lambda: _f(ook.theory_BER(mu * 1.07, case["s0"], case["s1"])))
+                    _positional(res, "ook.theory_BER", ook.theory_BER, {"mu1": mu, "s0": case["s0"], "s1": case["s1"]})
+                    _positional(res, "ook.THRESHOLD_EST", ook.THRESHOLD_EST, {"eye_obj": e})
+                    _positional(res, "ook.BER_analizer", ook.BER_analizer, {"mode": "estimator"}, {"eye_obj": e})
                 else:
                     M = case["M"]
                     decs = [case["decision"]] if kind == "err-ppm" else ["hard", "soft"]
@@ -339,6 +377,11 @@ def run_impl(case):
                             res["theory_" + dec] = _try(lambda: _f(ppm.theory_BER(mu, case["s0"], case["s1"], M, dec)))
                         res["quad_theory_" + dec] = sp.calls
                         res["theory_up_" + dec] = _try(lambda: _f(ppm.theory_BER(mu * 1.07, case["s0"], case["s1"], M, dec)))
+                    if kind == "ppm":
+                        pdec = "hard" if (case["M"] + int(1e6 * abs(mu))) % 2 else "soft"
+                        _positional(res, "ppm.theory_BER", ppm.theory_BER, {"mu1": mu, "s0": case["s0"], "s1": case["s1"], "M": M, "decision": pdec})
+                        _positional(res, "ppm.THRESHOLD_EST", ppm.THRESHOLD_EST, {"eye_obj": e, "M": M})
+                        _positional(res, "ppm.BER_analizer", ppm.BER_analizer, {"mode": "estimator"}, {"eye_obj": e, "M": M, "decision": pdec})
             elif kind == "vec":
                 mu, s0, s1 = np.array(case["mu"]), np.array(case["s0"]), np.array(case["s1"])
                 if case["scalar_s"]:
@@ -362,6 +405,13 @@ def run_impl(case):
                     res["tb"] = _try(lambda: lst(utils.theory_BER(P, mod, M, case["decision"], case["threshold"], **_rx_kwargs(case, for_tb=True))))
                 res["quad_tb"] = sp.calls
                 if kind == "rx":
+                    a = dict(P_avg=P, modulation=mod, M=M, decision=case["decision"], threshold=case["threshold"],
+                             ER=np.inf if case["ER"] is None else case["ER"], amplify=case["amplify"], wavelength=case["wavelength"],
+                             f0=sc.c / case["wavelength"], G=case["G"], NF=case["NF"], BW_opt=case["BW_opt"], r=case["r"], BW_el=case["BW_el"],
+                             R_L=case["R_L"], T=case["T"], NF_el=case["NF_el"])
+                    for nm, fn in (("utils.p_ase", utils.p_ase), ("utils.average_voltages", utils.average_voltages),
+                                   ("utils.noise_variances", utils.noise_variances), ("utils.theory_BER", utils.theory_BER)):
+                        _positional(res, nm, fn, a)
                     up = dict(case)
                     res["tb_up"] = _try(lambda: lst(utils.theory_BER(case["P_avg"] + 1.0, mod, M, case["decision"], case["threshold"],
                                                                      **_rx_kwargs(case, for_tb=True))))
@@ -369,6 +419,8 @@ def run_impl(case):
                     res["tb_each"] = [_try(lambda p=p: lst(utils.theory_BER(p, mod, M, case["decision"], None, **_rx_kwargs(case, for_tb=True))))
                                       for p in case["P_avg"]]
             elif kind == "optthr":
+                _positional(res, "utils.optimum_threshold", utils.optimum_threshold,
+                            {k2: case[k2] for k2 in ("mu0", "mu1", "S0", "S1", "modulation", "M")})
                 res["thr"] = _try(lambda: _f(utils.optimum_threshold(case["mu0"], case["mu1"], case["S0"], case["S1"], case["modulation"], case["M"])))
             elif kind in ("optthr-scale", "optthr-rx"):
                 if kind == "optthr-scale":
@@ -446,11 +498,23 @@ def _device_edfa(case):
     gv(sps=case["sps"], R=case["R"], wavelength=case["wavelength"])
     fs, f0 = float(gv.fs), float(gv.f0)
     n = 32
-    x = optical_signal(np.ones(n if case["npol"] == 1 else (2, n)) * 0.01, n_pol=case["npol"])
+    shape = n if case["npol"] == 1 else (2, n)
+    nz = None
+    if case.get("in_noise"):          # a receiver input that already carries optical noise: the ASE the EDFA ADDS must still have power P_ase
+        g = np.random.default_rng(case.get("seed", 1))
+        nz = 1e-3 * (g.normal(size=shape) + 1j * g.normal(size=shape))
+    x = optical_signal(np.ones(shape) * 0.01, nz, n_pol=case["npol"])
     orig = np.random.randn
     np.random.randn = lambda *shape: np.ones(shape)
+
+    def added_power(y):
+        amp = np.sqrt(10 ** (case["G"] / 10))
+        base = np.zeros_like(y.noise)
+        if nz is not None:
+            base[0 if case["npol"] == 1 else slice(None)] = amp * nz
+        return float(np.mean(np.sum(np.abs(y.noise - base) ** 2, axis=0)))
     try:
-        out = _try(lambda: (lambda y: float(np.mean(np.sum(np.abs(y.noise) ** 2, axis=0))))(EDFA(x, case["G"], case["NF"])))
+        out = _try(lambda: added_power(EDFA(x, case["G"], case["NF"])))
     finally:
         np.random.randn = orig
     return {"fs": fs, "f0": f0, "edfa_pase": out,
@@ -748,11 +812,25 @@ def _need(v, name, d):
 
 
 def oracle(case, res):
-    v = []
     if res.get("status") == "timeout":
         return [("C13:timeout", "call did not return")]
     if res.get("status") != "done":
         return [("C13:harness", f"harness failure: {res.get('detail')}")]
+    v = []
+    # positional twins: the documented argument order is part of the interface
+    for name, t in ((res.get("positional") or {}) if case["kind"] != "geteye" else {}).items():
+        a, b = t["pos"], t["kw"]
+        same = ("ok" in a and "ok" in b and len(a["ok"]) == len(b["ok"]) and
+                all((x == y) or (x != x and y != y) for x, y in zip(a["ok"], b["ok"]))) or \
+               ("ok" not in a and "ok" not in b and a.get("exc") == b.get("exc"))
+        if not same:
+            v.append((f"C13:positional:{name}", f"{name}({', '.join(POSITIONAL[name])}) called positionally in the documented order gives "
+                      f"{a}, the same arguments by keyword give {b}"))
+    return v + _oracle_kind(case, res)
+
+
+def _oracle_kind(case, res):
+    v = []
     k = case["kind"]
     if k == "geteye":
         if "sub" not in res:
@@ -825,8 +903,10 @@ def oracle(case, res):
         if "ok" not in res["edfa_pase"] or "ok" not in res["pase"]:
             return [("C13:raises:device-edfa", f"{res['edfa_pase']} {res['pase']}")]
         a, b = res["edfa_pase"]["ok"], res["pase"]["ok"]
-        if not _close(a, b, 1e-9):
-            v.append(("C13:p_ase-vs-EDFA", f"EDFA adds ASE power {a!r} W, utils.p_ase(BW_opt=fs) = {b!r} W"))
+        # with incoming noise the added ASE is a difference of two arrays: rounding relative to the amplified incoming noise power
+        slack = 1e-9 + (1e-12 * 10 ** (case["G"] / 10) * 4e-6 / max(b, 1e-300) if case.get("in_noise") else 0.0)
+        if not _close(a, b, slack):
+            v.append(("C13:p_ase-vs-EDFA", f"EDFA adds ASE power {a!r} W (incoming noise: {bool(case.get('in_noise'))}), utils.p_ase(BW_opt=fs) = {b!r} W"))
         return v
     return v
 
